@@ -845,7 +845,7 @@ func init() {
 		Register(Spec[c32Case]{
 			ID: "C32", Suite: name, CoqImports: []string{"Check.C32"},
 			CoqType: "string", CoqRun: "Check.C32.run",
-			Quick: 80, Thorough: 3500, Parallel: 8,
+			Quick: 80, Thorough: 1000, Parallel: 8,
 			Corpus: func() []c32Case {
 				var out []c32Case
 				for _, c := range c32Corpus() {
@@ -862,7 +862,7 @@ func init() {
 	Register(Spec[c32Bytes]{
 		ID: "C32", Suite: "read", CoqImports: []string{"Check.C32"},
 		CoqType: "string", CoqRun: "Check.C32.run_read",
-		Quick: 100, Thorough: 4000, Parallel: 8,
+		Quick: 100, Thorough: 1500, Parallel: 8,
 		Corpus: func() []c32Bytes {
 			var out []c32Bytes
 			b := c32ValidFile(NewRand(7))
